@@ -1,0 +1,47 @@
+//go:build verif
+// +build verif
+
+package bfe_http2
+
+import (
+	"bytes"
+	"fmt"
+	"io/ioutil"
+)
+
+import (
+	http "github.com/bfenetworks/bfe/bfe_http"
+	"github.com/bfenetworks/bfe/bfe_http2/hpack"
+)
+
+// VerifC25Request HPACK-encodes the given fields into one HEADERS frame, reads it back through the real
+// Framer (ReadMetaHeaders set: readMetaFrame validates names/values/pseudo headers) and builds the request
+// with the real newWriterAndRequest.  For the verification harness.
+func VerifC25Request(fields [][2]string, endStream bool) (*http.Request, error) {
+	var hb bytes.Buffer
+	enc := hpack.NewEncoder(&hb)
+	for _, f := range fields {
+		if err := enc.WriteField(hpack.HeaderField{Name: f[0], Value: f[1]}); err != nil {
+			return nil, err
+		}
+	}
+	var wire bytes.Buffer
+	fw := NewFramer(&wire, nil)
+	if err := fw.WriteHeaders(HeadersFrameParam{StreamID: 1, BlockFragment: hb.Bytes(), EndStream: endStream, EndHeaders: true}); err != nil {
+		return nil, err
+	}
+	fr := NewFramer(ioutil.Discard, &wire)
+	fr.ReadMetaHeaders = hpack.NewDecoder(initialHeaderTableSize, nil)
+	f, err := fr.ReadFrame()
+	if err != nil {
+		return nil, err
+	}
+	mh, ok := f.(*MetaHeadersFrame)
+	if !ok {
+		return nil, fmt.Errorf("not a HEADERS frame")
+	}
+	sc := &serverConn{remoteAddrStr: "10.0.0.9:1234"}
+	st := &stream{id: 1}
+	_, req, err := sc.newWriterAndRequest(st, mh)
+	return req, err
+}
